@@ -55,6 +55,81 @@ def strategy(tier):
     })
 
 
+def extra_cases(tier, seed, shard, nshards):
+    for i, k in enumerate(["gthread", "gevent", "eventlet"]):
+        if (i + seed) % nshards == shard:
+            yield {"engine": "R", "kind": k}
+
+
+EXHAUSTIVE_NOTE = "engine R: one keep-alive connection history (bodies left unread / partly read, then the next request) per keep-alive worker class"
+
+
+def run_real(case):
+    """engine R: a real keep-alive worker, applications that leave the body unread or read a part of it, bodies larger than one block,
+    Content-Length and chunked (the chunked tail sent a moment later): the next request on the connection is the one the client sent"""
+    import hashlib
+    import time
+    from vlib import renv, ref_response
+    kind = case["kind"]
+    srv = renv.Server(kind=kind, workers=1, bind="unix", graceful=2, timeout=30, threads=2 if kind == "gthread" else None, keepalive=5)
+    vio = []
+    try:
+        if not srv.wait_ready():
+            return Outcome([], False, ["engine:R", "inconclusive:not-ready"])
+        big = b"".join(b"line %05d of the body that stays unread\n" % i for i in range(120))       # ~4.8 kB, request-like lines inside
+        big = big[:2000] + b"GET /smuggled HTTP/1.1\r\nHost: x\r\n\r\n" + big[2000:]
+        chunked = b"".join(b"%x\r\n%s\r\n" % (len(big[i:i + 1500]), big[i:i + 1500]) for i in range(0, len(big), 1500)) + b"0\r\n\r\n"
+        plans = [
+            ("unread-content-length", [(b"POST /noread/1 HTTP/1.1\r\nHost: x\r\nContent-Length: %d\r\n\r\n" % len(big) + big, None, "noread path=/noread/1"),
+                                       (b"GET /echo/2 HTTP/1.1\r\nHost: x\r\n\r\n", None, "echo method=GET path=/echo/2"),
+                                       (b"GET /echo/3 HTTP/1.1\r\nHost: x\r\n\r\n", None, "echo method=GET path=/echo/3")]),
+            ("partly-read-content-length", [(b"POST /readsome/10 HTTP/1.1\r\nHost: x\r\nContent-Length: %d\r\n\r\n" % len(big) + big, None, "readsome path=/readsome/10 got=10"),
+                                            (b"GET /echo/2 HTTP/1.1\r\nHost: x\r\n\r\n", None, "echo method=GET path=/echo/2")]),
+            ("unread-chunked-late-tail", [(b"POST /readsome/1 HTTP/1.1\r\nHost: x\r\nTransfer-Encoding: chunked\r\n\r\n" + chunked[:1700], chunked[1700:], "readsome path=/readsome/1 got=1"),
+                                          (b"GET /echo/2 HTTP/1.1\r\nHost: x\r\n\r\n", None, "echo method=GET path=/echo/2")]),
+            ("fully-read", [(b"POST /echo/1 HTTP/1.1\r\nHost: x\r\nContent-Length: %d\r\n\r\n" % len(big) + big, None, "echo method=POST path=/echo/1"),
+                            (b"GET /echo/2 HTTP/1.1\r\nHost: x\r\n\r\n", None, "echo method=GET path=/echo/2")]),
+        ]
+        for name, steps in plans:
+            c = srv.connect(5.0)
+            try:
+                for j, (first, later, want) in enumerate(steps):
+                    c.sendall(first)
+                    data = b""
+                    c.settimeout(5.0)
+                    r = None
+                    sent_later = later is None
+                    while True:
+                        r = ref_response.parse_response(data, 0, "GET") if data else None
+                        if r is not None and r.ok and r.complete:
+                            break
+                        try:
+                            d = c.recv(65536)
+                        except OSError:
+                            d = b""
+                        if not d:
+                            break
+                        data += d
+                    if not sent_later:
+                        time.sleep(0.2)
+                        try:
+                            c.sendall(later)          # the rest of the body arrives after the response
+                        except OSError:
+                            pass
+                    body = r.body.decode("latin-1") if r is not None and r.ok and r.complete else ""
+                    if r is None or not r.ok or r.status != 200 or not body.startswith(want):
+                        vio.append(Violation("next-request-at-the-right-byte", "C07/real:request-%d-after-%s-not-served-as-sent:%s" % (j + 1, name, kind),
+                                             observed={"status": getattr(r, "status", None), "body": body[:120], "raw": data[:200]}, expected=want))
+                        break
+            finally:
+                c.close()
+            if vio:
+                break
+        return Outcome(vio, True, ["engine:R", "kind:" + kind], key="R|" + kind, sample={"case": case})
+    finally:
+        srv.cleanup()
+
+
 def build(case):
     pat = case["pat"].encode("latin-1")
     n = case["len"]
@@ -99,6 +174,8 @@ def build(case):
 
 
 def run_case(case):
+    if case.get("engine") == "R":
+        return run_real(case)
     stream, cuts, body, nb = build(case)
     cfg = penv.make_cfg(**(case.get("limits") or {}))
     if case.get("source") == "sock":
